@@ -251,10 +251,56 @@ func runUndo(cfg *config) error {
 			bad = true
 			viol(kind, fmt.Sprintf("session %d: %s", i, detail), map[string]any{"seed": cfg.seed, "session": i, "steps": log}, map[string]any{"flavor": "content"})
 		}
+		doUndo := func(j int) bool {
+			can := d.CanUndo()
+			wantCan := pos > floor
+			log = append(log, fmt.Sprintf("Z can=%v", can))
+			res.Evaluations++
+			if can != wantCan {
+				fail("can-undo-wrong", fmt.Sprintf("CanUndo = %v after step %d, expected %v (position %d, oldest reachable %d)", can, j, wantCan, pos, floor))
+				return false
+			}
+			if can {
+				if err, p, _ := safely(func() error { return d.Undo() }); err != nil {
+					fail("undo-failed", fmt.Sprintf("Undo: %v (panic=%v)", err, p))
+					return false
+				}
+				pos--
+			}
+			coq, cur := observe(d)
+			steps = append(steps, fmt.Sprintf("(UUndo %s %s)", coqfmt.Bool(can), coq))
+			if cur != recorded[pos] {
+				fail("undo-does-not-restore", fmt.Sprintf("after Undo the content is %s but was %s before the undone step", cur, recorded[pos]))
+			}
+			return can
+		}
+		doRedo := func(j int) bool {
+			can := d.CanRedo()
+			wantCan := pos < len(recorded)-1
+			log = append(log, fmt.Sprintf("Y can=%v", can))
+			res.Evaluations++
+			if can != wantCan {
+				fail("can-redo-wrong", fmt.Sprintf("CanRedo = %v after step %d, expected %v", can, j, wantCan))
+				return false
+			}
+			if can {
+				if err, p, _ := safely(func() error { return d.Redo() }); err != nil {
+					fail("redo-failed", fmt.Sprintf("Redo: %v (panic=%v)", err, p))
+					return false
+				}
+				pos++
+			}
+			coq, cur := observe(d)
+			steps = append(steps, fmt.Sprintf("(URedo %s %s)", coqfmt.Bool(can), coq))
+			if cur != recorded[pos] {
+				fail("redo-does-not-restore", fmt.Sprintf("after Redo the content is %s but was %s after the redone step", cur, recorded[pos]))
+			}
+			return can
+		}
 		for j := 0; j < nsteps && !bad; j++ {
-			w := []int{6, 3, 2}
+			w := []int{6, 3, 2, 1, 1}
 			if long && j < 56 {
-				w = []int{1, 0, 0}
+				w = []int{1, 0, 0, 0, 0}
 			}
 			switch cr.Pick(w...) {
 			case 0:
@@ -290,46 +336,14 @@ func runUndo(cfg *config) error {
 					fail("noop-update-changed-content", "an update that produced no change altered the content")
 				}
 			case 1:
-				can := d.CanUndo()
-				wantCan := pos > floor
-				log = append(log, fmt.Sprintf("Z can=%v", can))
-				res.Evaluations++
-				if can != wantCan {
-					fail("can-undo-wrong", fmt.Sprintf("CanUndo = %v after step %d, expected %v (position %d, oldest reachable %d)", can, j, wantCan, pos, floor))
-					break
-				}
-				if can {
-					if err, p, _ := safely(func() error { return d.Undo() }); err != nil {
-						fail("undo-failed", fmt.Sprintf("Undo: %v (panic=%v)", err, p))
-						break
-					}
-					pos--
-				}
-				coq, cur := observe(d)
-				steps = append(steps, fmt.Sprintf("(UUndo %s %s)", coqfmt.Bool(can), coq))
-				if cur != recorded[pos] {
-					fail("undo-does-not-restore", fmt.Sprintf("after Undo the content is %s but was %s before the undone step", cur, recorded[pos]))
-				}
+				doUndo(j)
 			case 2:
-				can := d.CanRedo()
-				wantCan := pos < len(recorded)-1
-				log = append(log, fmt.Sprintf("Y can=%v", can))
-				res.Evaluations++
-				if can != wantCan {
-					fail("can-redo-wrong", fmt.Sprintf("CanRedo = %v after step %d, expected %v", can, j, wantCan))
-					break
+				doRedo(j)
+			case 3: // drain: undo as far as it goes (the undo stack empty, everything on the redo stack)
+				for k := 0; k < 60 && !bad && doUndo(j); k++ {
 				}
-				if can {
-					if err, p, _ := safely(func() error { return d.Redo() }); err != nil {
-						fail("redo-failed", fmt.Sprintf("Redo: %v (panic=%v)", err, p))
-						break
-					}
-					pos++
-				}
-				coq, cur := observe(d)
-				steps = append(steps, fmt.Sprintf("(URedo %s %s)", coqfmt.Bool(can), coq))
-				if cur != recorded[pos] {
-					fail("redo-does-not-restore", fmt.Sprintf("after Redo the content is %s but was %s after the redone step", cur, recorded[pos]))
+			case 4: // and redo as far as it goes
+				for k := 0; k < 60 && !bad && doRedo(j); k++ {
 				}
 			}
 			if !bad && d.Root().Marshal() != d.Marshal() {
